@@ -687,7 +687,8 @@ impl Eraser {
                             if i == 1 && a["spread"] == json!(false) && ty(&a["expression"]) == "ArrayExpression" {
                                 for el in a["expression"]["elements"].as_array().unwrap() {
                                     if el.is_null() {
-                                        return Ok(("apply", Some(EraseError { sig: "hook-args".into(), detail: "hole in the array passed to apply".into() })));
+                                        // an elision is not an operand expression: it is skipped (FREE zone, see C04)
+                                        continue;
                                     }
                                     ex.push(el.clone());
                                 }
@@ -717,7 +718,32 @@ impl Eraser {
                 format!("hook {name} ({kind}): {} operand(s) passed, the operation has {}: {} vs {}", rest.len(), expected.len(), brief(&json!(rest)), brief(&json!(expected))),
             );
         }
+        // `a + <hoisted effectful expression>`: an identifier left in place is read AFTER the hoisted operand
+        if kind == "plus" {
+            let l = &a0["left"];
+            let r = &a0["right"];
+            if let (Some(ln), Some(rn)) = (ident_name(l), self.temp_name(r)) {
+                if !self.is_temp(ln) && ln != "undefined" {
+                    if let Some(b) = self.env.get(rn) {
+                        if !is_pure_operand(&b.raw, self) {
+                            return soft(
+                                "kept-identifier-after-effect",
+                                format!("`{ln}` is left in place as left operand while the right operand {} was hoisted in front of it: `{ln}` is now read after that expression has been evaluated", brief(&b.raw)),
+                            );
+                        }
+                    }
+                }
+            }
+        }
         for (i, (e, r)) in expected.iter().zip(rest).enumerate() {
+            // a spread operand must be materialised once (`t = [...x]`): spreading `x` again would iterate it twice
+            if r["spread"] == json!(true) {
+                let ex = &r["expression"];
+                let ok = self.temp_name(ex).is_some() || is_lit_node(ex);
+                if !ok && equal_ignoring_meta(e, r) {
+                    return soft("hook-args-spread-twice", format!("hook {name} ({kind}): operand {i} spreads {} again instead of a temporary holding its single expansion", brief(ex)));
+                }
+            }
             if !equal_ignoring_meta(e, r) {
                 return soft("hook-args", format!("hook {name} ({kind}): operand {i} is {} but the operation uses {}", brief(r), brief(e)));
             }
@@ -791,6 +817,7 @@ impl Eraser {
             return err("temp-read-before-assignment", format!("guard tests {t} which is not assigned"));
         }
         let before = self.env[&t].uses;
+        let tagged = format!("{}#{}", t, self.env[&t].seq_id);
         let mut rest = self.erase(&v["alternate"])?;
         let after = self.env[&t].uses;
         if after != before + 1 {
@@ -798,7 +825,7 @@ impl Eraser {
         }
         // locate the use and check that it lies on the callee/object spine of REST
         let mut path = vec![];
-        if !find_from(&rest, &t, &mut path) {
+        if !find_from(&rest, &tagged, &mut path) {
             return err("guard-scope", format!("use of {t} not found in the guarded expression"));
         }
         if path.is_empty() {
@@ -830,6 +857,16 @@ impl Eraser {
             o.insert("$guard".into(), json!(true));
         }
         Ok(Some(rest))
+    }
+}
+
+/// operands whose evaluation has no observable effect and does not depend on when it happens
+fn is_pure_operand(v: &Value, er: &Eraser) -> bool {
+    match ty(v) {
+        "Identifier" => true,
+        "ThisExpression" | "ArrowFunctionExpression" | "FunctionExpression" => true,
+        "TemplateLiteral" => v["expressions"].as_array().map(|a| a.is_empty()).unwrap_or(false),
+        _ => is_lit_node(v) || er.leaf_ok(v),
     }
 }
 
@@ -893,6 +930,19 @@ fn is_static_path(v: &Value) -> bool {
     fn path_ok(v: &Value, seen_proto: &mut bool) -> bool {
         match ty(v) {
             "Identifier" => true,
+            // `[].slice`, `''.concat`, `({}).toString`: a fresh literal base, nothing observable either
+            "StringLiteral" => {
+                *seen_proto = true;
+                true
+            }
+            "ArrayExpression" => {
+                *seen_proto = true;
+                v["elements"].as_array().map(|a| a.is_empty()).unwrap_or(false)
+            }
+            "ObjectExpression" => {
+                *seen_proto = true;
+                v["properties"].as_array().map(|a| a.is_empty()).unwrap_or(false)
+            }
             "MemberExpression" => {
                 if v["optional"] == json!(true) {
                     return false;
@@ -918,7 +968,7 @@ fn find_from(v: &Value, name: &str, path: &mut Vec<String>) -> bool {
     match v {
         Value::Object(m) => {
             if let Some(f) = m.get("$from").and_then(|f| f.as_array()) {
-                if f.iter().any(|n| n.as_str().and_then(|s| s.split('#').next()) == Some(name)) {
+                if f.iter().any(|n| n.as_str() == Some(name)) {
                     return true;
                 }
             }
